@@ -3,6 +3,7 @@ package main
 // C03 — no byte sequence from the remote can crash, hang or exhaust a session.
 
 import (
+	"sort"
 	"strings"
 
 	"golang.org/x/tools/go/ssa"
@@ -115,6 +116,13 @@ func checkC03(c *Ctx, r *Report) {
 			if len(reads) == 0 {
 				continue
 			}
+			// lp.body is a map: order the reads by position so that the obligation key is stable
+			sort.Slice(reads, func(i, j int) bool {
+				if bi, bj := reads[i].Block().Index, reads[j].Block().Index; bi != bj {
+					return bi < bj
+				}
+				return instrIndex(reads[i]) < instrIndex(reads[j])
+			})
 			o := r.Add("C03-readloop", fnName(fn), "loop at "+lp.header.Comment+" reading "+callName(reads[0].Common()), c.pos(reads[0].Pos()))
 			good := false
 			for _, rd := range reads {
